@@ -302,7 +302,7 @@ pub fn run_protocol(input: &[u8], sizes: &[usize], script: Vec<Resp>, op: &str, 
 
 /// mechanism B: seeded long grammar inputs x random fault scripts x all four write paths
 /// "head ESC[1m <L x> ESC[0m tail\n" for L around 128, 256, 1024, 4096
-pub fn threshold_family(deep: bool) -> Vec<Vec<u8>> {
+pub fn threshold_family(deep: bool, osc: bool) -> Vec<Vec<u8>> {
     let mut v = Vec::new();
     let ls: &[usize] = if deep { &[127, 128, 129, 255, 256, 257, 1023, 1024, 1025, 4095, 4096, 4097] } else { &[127, 128, 129, 255, 256, 257, 1023, 1024, 1025] };
     for &l in ls {
@@ -311,9 +311,10 @@ pub fn threshold_family(deep: bool) -> Vec<Vec<u8>> {
         b.extend_from_slice(b"\x1b[0m tail\n");
         v.push(b);
     }
-    if deep {
+    if deep || osc {
         // a string sequence whose payload ends right at a typical buffer size, then its terminator and visible text - ONE call
-        for l in [4088usize, 4089, 4090] {
+        let ls: &[usize] = if deep { &[4088, 4089, 4090] } else { &[4089] };
+        for &l in ls {
             let mut b = b"\x1b]52;c;".to_vec();
             b.extend((0..l).map(|i| b'A' + (i % 26) as u8));
             b.extend_from_slice(b"\x07shown after\n");
@@ -334,7 +335,7 @@ pub fn record(seed: u64, runs: u64, target: usize, path: &str, max_profile: usiz
         let mut input = gen_stream(&mut r, target, flavor);
         // threshold family (first runs of the shards whose seed is a multiple of 4): a short run, a sequence, then an escape-free
         // run whose length sits on a typical buffer size - in ONE call (pending-buffer and gather optimisations)
-        let family = threshold_family(target >= 1000);
+        let family = threshold_family(target >= 1000, seed % 8 == 0);
         let fam = seed % 4 == 0 && (k as usize) < family.len();
         if fam {
             input = family[k as usize].clone();
